@@ -10,6 +10,9 @@ sub-checks
             per length: image set = all 132-avoiders (bijection)
   ss_long   the same map beyond the exhaustive lengths on the complete structured family "at most k
             left-to-right minima": forward image = reference image, class, minima, inverse undoes
+  ss_scale  the same map at lengths that straddle runtime thresholds (9..14, 31..36, 256..258;
+            thorough also 63..66, 127..132, 255..260, 511..514) on decreasing sequences with a block
+            of j non-minima, j around the set-resize points 4/5, 18/19, 76/77
   families  smooth, forest_like, baxter, simsun, dihedral, in_alternating_group,
             yt_perm_avoids_22/32, av_231_and_mesh, hard_mesh against definitions
   deep      independent second definitions that are too slow for the long lengths: Greene's theorem
@@ -311,36 +314,37 @@ def ss_levels(ctx, n, fwd, inv):
 # "ALL 123-avoiders of length n with at most k left-to-right minima" (Narayana many) together with
 # "ALL 132-avoiders with at most k minima" (their reference images) is enumerated completely.
 
-def check_ss_long(part, Perm, SS, p, after=None):
+def check_ss_long(part, Perm, SS, p, after=None, sub="ss_long"):
     """p: a 123-avoider.  Forward image = reference image (a 132-avoider with the same minima),
     inverse of the image = p; both directions also judged without the reference map."""
     p = tuple(p)
     q = D.ss_forward_ref(p)
     ok = True
-    for inverse, x, want, bad in ((False, p, q, D.has_132), (True, q, p, D.has_123)):
+    h132 = D.has_132 if len(p) <= 40 else D.has_132_fast     # cubic brute force / quadratic
+    for inverse, x, want, bad in ((False, p, q, h132), (True, q, p, D.has_123)):
         case = _case(x, after, inverse=inverse)
         try:
             got = _guarded_call(SS, Perm(x), inverse=inverse)
         except _Timeout:
-            part.violation("ss_long", case, {"no answer within %g s of CPU time" % CALL_CPU_LIMIT: True})
+            part.violation(sub, case, {"no answer within %g s of CPU time" % CALL_CPU_LIMIT: True})
             ok = False
             continue
         except Exception as exc:  # noqa
-            part.violation("ss_long", case, {"in the domain, but raised": repr(exc)})
+            part.violation(sub, case, {"in the domain, but raised": repr(exc)})
             ok = False
             continue
         g = tuple(got)
         if not isinstance(got, Perm) or sorted(g) != list(range(len(x))):
-            part.violation("ss_long", case, {"not a permutation of the same length": repr(got)})
+            part.violation(sub, case, {"not a permutation of the same length": repr(got)})
             ok = False
         elif D.ltr_minima(g) != D.ltr_minima(x):
-            part.violation("ss_long", case, {"left-to-right minima moved": list(g)})
+            part.violation(sub, case, {"left-to-right minima moved": list(g)})
             ok = False
         elif bad(g):
-            part.violation("ss_long", case, {"image is not in the target class": list(g)})
+            part.violation(sub, case, {"image is not in the target class": list(g)})
             ok = False
         elif g != want:
-            part.violation("ss_long", case, {"expected": list(want), "got": list(g)})
+            part.violation(sub, case, {"expected": list(want), "got": list(g)})
             ok = False
     return q, ok
 
@@ -365,6 +369,58 @@ def shard_ss_long(shard):
             part.sample({"sub": "ss_long", "perm": p, "image": q, "ltr_minima": D.ltr_minima(p)}, cap=1)
     assert len(images) == len(fam)                    # reference map injective on the family
     return part, (n, k, len(fam))
+
+
+# --------------------------------------------------------------------------------------------
+# Simion-Schmidt at sizes that straddle runtime thresholds: the "scale" family
+# --------------------------------------------------------------------------------------------
+# Sizes around 8/9, 32/33, 128/129, 256/257, 512/513 (hash-table sizes of small sets, small-int
+# cache, byte buffers).  Shape: D.block_avoider(n, j, a, b) - the decreasing sequence with a block
+# of j non-minima (values b..b+j-1 at positions a..a+j-1); j straddles the set-resize points
+# 4/5, 18/19, 76/77.  mode "all": every (a, b); mode "ext": a and b among the 3 smallest, the
+# middle and the 3 largest offsets (mode "ext5": 2 smallest, middle, 2 largest).
+
+SCALE_J = [1, 2, 3, 4, 5, 6, 18, 19, 20, 76, 77, 78]
+
+
+def _offsets(lo, hi, mode):
+    if hi < lo:
+        return []
+    if mode == "all":
+        return list(range(lo, hi + 1))
+    w = 3 if mode == "ext" else 2
+    return sorted({v for v in list(range(lo, lo + w)) + [(lo + hi) // 2] + list(range(hi - w + 1, hi + 1))
+                   if lo <= v <= hi})
+
+
+def shard_ss_scale(shard):
+    n, j, mode = shard
+    Perm = _P()
+    from permuta.permutils.bijections import Bijections
+    SS = Bijections.simion_and_schmidt
+    part = Partial()
+    images, members = set(), 0
+    prev = None
+    for a in _offsets(1, n - j, mode):
+        for b in _offsets(0, n - j, mode):
+            p = D.block_avoider(n, j, a, b)
+            if p is None:
+                continue
+            members += 1
+            assert not D.has_123(p), p
+            q, _ = check_ss_long(part, Perm, SS, p, prev, sub="ss_scale")
+            assert not D.has_132_fast(q) and D.ltr_minima(q) == D.ltr_minima(p) \
+                and D.ss_inverse_ref(q) == p, p
+            if n <= 14:
+                assert not D.has_132(q), p
+            images.add(q)
+            prev = p
+            part.add(1, 1 if q != p else 0)
+            if n == 33 and j == 5 and q != p:
+                part.sample({"sub": "ss_scale", "n": n, "j": j, "a": a, "b": b, "perm": p, "image": q},
+                            cap=1)
+    assert len(images) == members
+    return part, (n, members)
 
 
 # --------------------------------------------------------------------------------------------
@@ -570,8 +626,15 @@ def run(ctx, only=None):
         e0 = ctx.evals
         # (max length, max number of left-to-right minima); lengths <= n_ss are covered by "ss"
         plan = [(20, 3)] if quick else [(24, 3), (20, 4)]
-        todo = sorted({(n, k) for nmax, kmax in plan for n in range(1, nmax + 1)
-                       for k in range(1, min(kmax, n) + 1)})
+        # dual family: (max length, max number of NON-minima); and all avoiders of these lengths
+        dual = [(20, 2)] if quick else [(24, 2), (20, 3)]
+        full = [9, 10] if quick else [9, 10, 11, 12]
+        todo = {(n, k) for nmax, kmax in plan for n in range(1, nmax + 1)
+                for k in range(1, min(kmax, n) + 1)}
+        todo |= {(n, n - j) for nmax, jmax in dual for n in range(1, nmax + 1)
+                 for j in range(0, jmax + 1) if n - j >= 1}
+        todo |= {(n, k) for n in full for k in range(1, n + 1)}
+        todo = sorted(todo)
         shards = [(n, k, first) for n, k in todo for first in range(k - 1, n if k > 1 else 1)]
         res = ctx.pmap(shard_ss_long, shards)
         sizes = {}
@@ -581,8 +644,28 @@ def run(ctx, only=None):
             assert m == D.narayana(n, k), ("family size vs Narayana number", n, k, m)
         ctx.bounds["ss_long"] = ("all 123-avoiders (forward) and all 132-avoiders (inverse) with " +
                                  " / ".join("at most %d left-to-right minima up to length %d" % (k, n)
-                                            for n, k in plan))
+                                            for n, k in plan) + " / " +
+                                 " / ".join("at most %d non-minima up to length %d" % (j, n)
+                                            for n, j in dual) +
+                                 " / any number of minima at lengths %s" % full)
         ctx.section("ss_long", evaluations=ctx.evals - e0, family_size=sum(sizes.values()))
+    if want("ss_scale"):
+        e0 = ctx.evals
+        if quick:
+            sizes = [(range(9, 15), "all"), (range(31, 37), "all"), (range(256, 259), "ext5")]
+        else:
+            sizes = [(range(9, 15), "all"), (range(31, 37), "all"), (range(63, 67), "all"),
+                     (range(127, 133), "ext"), (range(255, 261), "ext"), (range(511, 515), "ext5")]
+        shards = [(n, j, mode) for rng, mode in sizes for n in rng for j in SCALE_J if j <= n - 2]
+        res = ctx.pmap(shard_ss_scale, shards)
+        ctx.bounds["ss_scale"] = {
+            "shape": "decreasing sequence with a block of j non-minima (values b..b+j-1 at positions "
+                     "a..a+j-1), forward map; its reference image, inverse map",
+            "j": SCALE_J,
+            "lengths": [{"n": [rng[0], rng[-1]], "offsets(a,b)": mode} for rng, mode in sizes]}
+        ctx.section("ss_scale", evaluations=ctx.evals - e0,
+                    members_by_length={str(n): sum(m for nn, m in res if nn == n)
+                                       for n in sorted({nn for nn, _ in res})})
     if want("families"):
         e0 = ctx.evals
         res = ctx.pmap(shard_families, shards_upto(n_fam, 630 if quick else 1260))
@@ -641,11 +724,11 @@ def replay(ctx, rec):
             check_ops(part, Perm, q, aft)
         elif sub == "ss":
             check_ss(part, Perm, SS, q, aft)
-        elif sub == "ss_long":
+        elif sub in ("ss_long", "ss_scale"):
             # the recorded permutation is the argument of the failing direction
             # (a 132-avoider when the inverse failed); the predecessor is always a 123-avoider
             x = D.ss_inverse_ref(q) if (q is p and case["inverse"]) else q
-            check_ss_long(part, Perm, SS, x, aft)
+            check_ss_long(part, Perm, SS, x, aft, sub=sub)
         elif sub == "families":
             check_families(part, props, q, Perm, aft)
         elif sub == "deep":
